@@ -105,7 +105,7 @@ def h_parse_format_string(ctx):
     refs = ctx.fresh('template_refs', SeqStr)
     MapStrip = Ghost('MapStrip', [SeqStr], SeqStr, base=lambda s: z3.Empty(SeqStr), step=lambda s, k, acc: z3.Concat(acc, z3.Unit(strip(s[k]))))
     sp.models['re.compile'] = Func(lambda I_, a, k, n: Obj(I_.fresh('pattern', ObjS), 'Pattern'))
-    sp.models['method:Obj:Pattern.match'] = Func(lambda I_, a, k, n: SymOpt(TokOK(to_z3(a[1], StrS)), Obj(UF('tok', StrS, ObjS)(to_z3(a[1], StrS)), 'Match')))
+    sp.models['method:Obj:Pattern.fullmatch'] = sp.models['method:Obj:Pattern.match'] = Func(lambda I_, a, k, n: SymOpt(TokOK(to_z3(a[1], StrS)), Obj(UF('tok', StrS, ObjS)(to_z3(a[1], StrS)), 'Match')))
 
     def m_group(I_, a, k, n):
         part = a[0].expr.arg(0)
